@@ -97,3 +97,53 @@ func VerifC14RebuildManyAccounts() {
 		check("C", c, SC, []*nom.AccountBlock{D, R})
 	}
 }
+
+// VerifC06PoolAfterRollback: when a momentum is rolled back the unconfirmed pool keeps nothing that depends on it:
+// no pooled block of ANY account acknowledges the removed momentum (or a later one) or receives a send that only the
+// removed momentum confirmed, and every account's pool frontier is again its confirmed frontier or a block that
+// survives on its own.  Accounts: A (its pooled-then-confirmed send is in the removed momentum), U (pooled blocks that
+// acknowledge the removed momentum - e.g. the receive of A's send - and, optionally, one that does not).
+func VerifC06PoolAfterRollback() {
+	c14Registry = nil
+	verifMapOrderNondet(true)
+	var a, u types.Address
+	a[0], u[0] = types.UserAddrByte, types.UserAddrByte
+	a[19], u[19] = 9, 10
+	SA, SU := c14Mk(a, 1, 1, types.ZeroHash), c14Mk(u, 1, 1, types.ZeroHash)
+	st := &c14Stable{dbs: map[types.Address]db.DB{a: c14StableDB(a, []*nom.AccountBlock{SA}), u: c14StableDB(u, []*nom.AccountBlock{SU})}}
+	ap := newAccountPool(st)
+	lock := c16LockerForPool{}
+	add := func(b *nom.AccountBlock) {
+		verifAssert(ap.AddAccountBlockTransaction(lock, &nom.AccountBlockTransaction{Block: b, Changes: db.NewPatch()}) == nil, "pool insert")
+	}
+	M1 := types.HashHeight{Hash: c14Hash(0xF1, 1), Height: 1}
+	M2 := types.HashHeight{Hash: c14Hash(0xF2, 2), Height: 2} // the momentum that is rolled back
+	// A's send, confirmed by M2
+	B2 := c14Mk(a, 2, 2, SA.Hash)
+	B2.MomentumAcknowledged = M1
+	add(B2)
+	st.dbs[a] = c14StableDB(a, []*nom.AccountBlock{SA, B2})
+	ap.InsertMomentum(&nom.DetailedMomentum{Momentum: &nom.Momentum{Height: 2, Hash: M2.Hash}, AccountBlocks: []*nom.AccountBlock{B2}})
+	// U's pooled blocks on top of M2
+	independent := verifNondetBool("U first has a pooled block that does not depend on the removed momentum")
+	prev := SU
+	if independent {
+		U2 := c14Mk(u, 2, 2, SU.Hash)
+		U2.MomentumAcknowledged = M1
+		add(U2)
+		prev = U2
+	}
+	R := c14Mk(u, 3, prev.Height+1, prev.Hash)
+	R.BlockType, R.FromBlockHash, R.MomentumAcknowledged = nom.BlockTypeUserReceive, B2.Hash, M2
+	add(R)
+	// roll M2 back
+	st.dbs[a] = c14StableDB(a, []*nom.AccountBlock{SA})
+	ap.DeleteMomentum(&nom.DetailedMomentum{Momentum: &nom.Momentum{Height: 2, Hash: M2.Hash}, AccountBlocks: []*nom.AccountBlock{B2}})
+	for _, addr := range []types.Address{a, u} {
+		for _, b := range ap.GetUncommittedAccountBlocksByAddress(addr) {
+			verifAssert(b.MomentumAcknowledged.Height < M2.Height, "no pooled block acknowledges the removed momentum")
+			verifAssert(b.FromBlockHash != B2.Hash || addr == a, "no pooled block receives a send that only the removed momentum confirmed")
+		}
+	}
+	verifReach("rolled back", true)
+}
